@@ -88,8 +88,16 @@ def run_argv(argv, stdin=b"", env=None, cwd=None, timeout=10.0):
         e.update(env)
     t0 = time.time()
     try:
-        p = subprocess.run(argv, input=stdin, stdout=subprocess.PIPE, stderr=subprocess.PIPE,
-                           env=e, cwd=cwd or scratch(), timeout=timeout)
+        for attempt in range(6):
+            try:
+                p = subprocess.run(argv, input=stdin, stdout=subprocess.PIPE, stderr=subprocess.PIPE,
+                                   env=e, cwd=cwd or scratch(), timeout=timeout)
+                break
+            except (PermissionError, FileNotFoundError, OSError) as x:
+                # the binary is being re-linked by a concurrent build step: wait for it
+                if isinstance(x, subprocess.TimeoutExpired) or attempt == 5:
+                    raise
+                time.sleep(2.0)
         r.rc, r.out, r.err = p.returncode, p.stdout, p.stderr
     except subprocess.TimeoutExpired as x:
         r.timeout = True
